@@ -40,8 +40,10 @@ def run_impl(sessions, impl, wd, jobs, timeout):
     # the machine may be heavily loaded: a watchdog expiry is re-examined alone, with a longer limit
     bysess = dict(sessions)
     for tag, r in list(res.items()):
-        if r.hang:
-            res[tag] = S.run_script(bysess[tag].text(), impl, None, wd, tag + '-retry', timeout=timeout * 3, want_model=False)
+        if r.hang or r.crash:
+            r2 = S.run_script(bysess[tag].text(), impl, None, wd, tag + '-retry', timeout=timeout * 3, want_model=False)
+            r2.first_attempt = (r.crash or 'hang')[-300:]
+            res[tag] = r2
     return res
 
 
@@ -146,7 +148,7 @@ def run_nb_check(ctx, mix_quick, mix_thorough, extra=None, jobs=8):
                        'by the spec oracle; non-trivial = more than 4 compared observations; distinct = distinct script text')
     # ---------------- verdicts
     for tag, s, r in hard[:3]:
-        ctx.violation('%s: %s' % ('hang (watchdog, also alone with 3x the limit)' if r.hang else 'crash / no inq', (r.crash or r.stdout or '')[-400:]),
+        ctx.violation('%s: %s' % ('hang (watchdog, also alone with 3x the limit)' if r.hang else 'crash (twice) / no inq', (r.crash or r.stdout or '')[-400:]),
                       dict(script=s.text(), nprocs=s.np, how_to_replay=REPLAY), key='hang' if r.hang else 'crash')
     reported = set()
     for tag, s, fails in oracle_fails:
